@@ -29,6 +29,9 @@ type DecorSpec struct {
 	// Builtin selects a decorator of the library itself instead of the recording probe:
 	// "ewmaeta", "ewmaspeed", "percentage", "counters", "elapsed", "avgeta", "avgspeed"
 	Builtin string
+	// ListenReads: the OnShutdown callback reads its own bar (Current, Completed) and writes a line through the container
+	ListenReads bool
+	Wide        bool // the text consists of 2-column runes
 }
 
 type BarSpec struct {
@@ -195,6 +198,12 @@ func (d DecorSpec) short() string {
 	if d.Builtin != "" {
 		s += ":" + d.Builtin
 	}
+	if d.ListenReads {
+		s += ":reads"
+	}
+	if d.Wide {
+		s += ":wide"
+	}
 	if len(d.Widths) > 0 {
 		s += fmt.Sprint(d.Widths)
 	}
@@ -214,6 +223,8 @@ type probeDecor struct {
 	calls  int
 	last   decor.Statistics
 	slot   int
+	onShut func() // extra work done inside OnShutdown
+	wide   bool
 }
 
 func (d *probeDecor) Decor(st decor.Statistics) (string, int) {
@@ -224,6 +235,14 @@ func (d *probeDecor) Decor(st decor.Statistics) (string, int) {
 			text += "x"
 		}
 		text = text[:n]
+	}
+	if d.wide {
+		// n display columns made of 2-column runes (plus one ASCII letter when n is odd)
+		n := len(text)
+		text = strings.Repeat("界", n/2)
+		if n%2 == 1 {
+			text += "x"
+		}
 	}
 	d.calls++
 	d.last = st
@@ -240,6 +259,9 @@ func (d *probeDecor) Format(s string) (string, int) {
 		need++
 	}
 	out, w := d.WC.Format(s)
+	if dw := runewidth.StringWidth(out); dw != w {
+		w = -dw // the returned width must be the display width of the returned string (negative = mismatch marker)
+	}
 	d.x.Decors = append(d.x.Decors, DecorEv{Step: mcrt.Step(), Bar: d.bar, Side: d.side, Ord: d.ord, Need: need, Got: w,
 		Completed: d.last.Completed, Aborted: d.last.Aborted, Cur: d.last.Current, Tot: d.last.Total})
 	return out, w
@@ -247,7 +269,12 @@ func (d *probeDecor) Format(s string) (string, int) {
 
 type listenDecor struct{ *probeDecor }
 
-func (d listenDecor) OnShutdown() { d.x.shutCounts[d.slot]++ }
+func (d listenDecor) OnShutdown() {
+	d.x.shutCounts[d.slot]++
+	if d.onShut != nil {
+		d.onShut()
+	}
+}
 
 type ewmaDecor struct{ *probeDecor }
 
@@ -267,6 +294,10 @@ type userWrap struct{ decor.Decorator }
 func (w userWrap) Unwrap() decor.Decorator { return w.Decorator }
 
 func (x *X) buildDecor(bar, side, ord int, ds DecorSpec) decor.Decorator {
+	return x.buildDecorR(nil, bar, side, ord, ds)
+}
+
+func (x *X) buildDecorR(r *runner, bar, side, ord int, ds DecorSpec) decor.Decorator {
 	if ds.Builtin != "" {
 		wc := decor.WC{W: ds.W}
 		if ds.Sync {
@@ -309,7 +340,17 @@ func (x *X) buildDecor(bar, side, ord int, ds DecorSpec) decor.Decorator {
 	if ds.Right {
 		wc.C |= decor.DindentRight
 	}
-	pd := &probeDecor{x: x, bar: bar, side: side, ord: ord, widths: ds.Widths}
+	pd := &probeDecor{x: x, bar: bar, side: side, ord: ord, widths: ds.Widths, wide: ds.Wide}
+	if ds.ListenReads && r != nil {
+		pd.onShut = func() {
+			// a listener that looks at its own bar and logs through the container
+			if b := r.bars[bar]; b != nil {
+				_ = b.Current()
+				_ = b.Completed()
+			}
+			r.p.Write([]byte(fmt.Sprintf("bar %d is down\n", bar)))
+		}
+	}
 	pd.name = fmt.Sprintf("d%d%c%d", bar, "pa"[side], ord)
 	pd.WC = wc
 	pd.WC.Init()
@@ -394,7 +435,11 @@ func (r *runner) barOptions(i int) (mpb.BarFiller, []mpb.BarOption) {
 		if flags == "" {
 			flags = "R"
 		}
-		_, err := fmt.Fprintf(w, "[b%d %d/%d %s]", st.ID, st.Current, st.Total, flags)
+		marker := fmt.Sprintf("[b%d %d/%d %s]", st.ID, st.Current, st.Total, flags)
+		if len(marker) > st.AvailableWidth {
+			return nil // a filler must stay within the width left for it (decorators may have used it all)
+		}
+		_, err := io.WriteString(w, marker)
 		return err
 	})
 	opts := []mpb.BarOption{mpb.BarID(i)}
@@ -448,10 +493,10 @@ func (r *runner) barOptions(i int) (mpb.BarFiller, []mpb.BarOption) {
 	}
 	var pre, app []decor.Decorator
 	for k, ds := range bs.Pre {
-		pre = append(pre, x.buildDecor(i, 0, k, ds))
+		pre = append(pre, x.buildDecorR(r, i, 0, k, ds))
 	}
 	for k, ds := range bs.App {
-		app = append(app, x.buildDecor(i, 1, k, ds))
+		app = append(app, x.buildDecorR(r, i, 1, k, ds))
 	}
 	if len(pre) > 0 {
 		opts = append(opts, mpb.PrependDecorators(pre...))
